@@ -19,7 +19,7 @@ const (
 )
 
 // @Tag(Alpha)
-// @Route(/alpha)
+// @Route(/alpha/)
 // @Security(schemeA, { scopes: ["read"] })
 // @Description Alpha controller
 type AlphaController struct {
